@@ -35,7 +35,9 @@ def value_preserved(x, v):
 def run(ck, facts, tier):
     hooks = {"@elem": elem_hook,
              "dual::get_variable_tags": lambda ev_, vals, e: Sym("tags", cel.vkey(vals[0]), cel.vkey(vals[1])),
-             "NodesTimestamp::keys": lambda ev_, vals, e: Sym("keys", cel.vkey(vals[0]))}
+             # the keys of a node map wrapped in its kind: as many as the wrapped map's entries (so `nodes.keys().len()` and `inner_map.len()` are one count)
+             "NodesTimestamp::keys": lambda ev_, vals, e: Sym("m", "keys", cel.vkey(vals[0].tag[2]) if isinstance(vals[0], Sym) and vals[0].tag[:1] == ("ctor",) and len(vals[0].tag) == 3
+                                                              else cel.vkey(vals[0]), ())}
     # ---------------- R12.1 / R12.2 on CurveDF::set_ad_order
     r1 = ck.rule("R12.1", "CurveDF::set_ad_order, all 9 (target order, stored kind) cases: every node keeps its key and its value; first<->second order switches keep "
                           "gradient and variable names (Hessian zero when raised, dropped when lowered); identity cases change nothing; result is Ok", floor=9)
@@ -79,7 +81,7 @@ def run(ck, facts, tier):
                     elem_key, enumerated = ck_[2], ck_[3]
                     # build the expected element
                     if stored == "F64":
-                        n = Poly.atom(("len", Sym("keys", cel.vkey(nodes0)).key(), None))
+                        n = Poly.atom(("len", cel.vkey(m), None))
                         tags = Sym("tags", cel.vkey(Sym("id")), n.key())
                         tag_i = Poly.atom(("call", "index", (cel.vkey(tags), Poly.atom("i").key())))
                         newvars = Sym("collect", cel.vkey(Tup([tag_i])))
@@ -161,7 +163,7 @@ def run(ck, facts, tier):
                 sk = res.tag[2].seq.key()
                 ok = sk[0] == "seq" and sk[1] in (cel.vkey(nodes), cel.vkey(sorted_nodes))
                 if ok and tgt != "F64":
-                    n = Poly.atom(("len", Sym("m", "keys", cel.vkey(nodes), ()).key(), None))
+                    n = Poly.atom(("len", cel.vkey(nodes), None))
                     tags = Sym("tags", cel.vkey(Sym("id")), n.key())
                     tag_i = Poly.atom(("call", "index", (cel.vkey(tags), Poly.atom("i").key())))
                     newvars = Sym("collect", cel.vkey(Tup([tag_i])))
